@@ -2,6 +2,7 @@ package rules
 
 import (
 	"fmt"
+	"go/constant"
 	"go/token"
 	"go/types"
 	"reflect"
@@ -1592,4 +1593,182 @@ func runM10(p *an.Prog, r *an.Result) {
 		})
 	}
 	r.Floor("stores into context fields", 2)
+}
+
+// ---------------------------------------------------------------------------
+// F13, F14, X19
+
+func init() {
+	register("F13", "the round filter rounds half up: it does not hand a number of unknown sign to math.Round (half away from zero), math.RoundToEven or math.Trunc", runF13)
+	register("F14", "a number becomes text the way it is printed: a strconv formatter applied to a value is the one fmt.Sprint uses (FormatFloat with 'g' and the shortest precision, FormatInt/FormatUint in base 10)", runF14)
+	register("X19", "a fractional array index is truncated first: in the wrappers' IndexValue a float becomes an int directly from the index value, before the negative index is wrapped, not after arithmetic on the float", runX19)
+}
+
+func runF13(p *an.Prog, r *an.Result) {
+	roles := GetRoles(p)
+	var round *Filter
+	for _, f := range roles.Filters {
+		if f.Name == "round" {
+			round = f
+		}
+	}
+	if round == nil || round.Fn == nil || !round.InMod {
+		r.Bad("filter:round", "registration", token.NoPos, "the round filter was not resolved to a function of the module")
+		return
+	}
+	for _, fn := range unitWithHelpers(p, round.Fn) {
+		an.EachInstr(fn, func(in ssa.Instruction) {
+			c, ok := in.(*ssa.Call)
+			if !ok {
+				return
+			}
+			cn := an.CallName(&c.Call)
+			switch cn {
+			case "math.Floor", "math.Ceil":
+				r.Counts["rounding calls"]++
+				r.OK(round.Label(), "rounds with "+cn, c.Pos(), "a floor or ceiling has no half rule of its own")
+			case "math.Round", "math.RoundToEven", "math.Trunc":
+				r.Counts["rounding calls"]++
+				// accepted only where the operand has been found non-negative (there half away from zero is half up)
+				nonNeg := false
+				for _, g := range an.GuardsAt(c.Block()) {
+					b, ok := g.Cond.(*ssa.BinOp)
+					if !ok {
+						continue
+					}
+					if z, isC := b.Y.(*ssa.Const); isC && z.Value != nil && isFloatType(b.X.Type()) && constIsZero(z) {
+						if (b.Op == token.GEQ || b.Op == token.GTR) && g.True || (b.Op == token.LSS || b.Op == token.LEQ) && !g.True {
+							nonNeg = true
+						}
+					}
+				}
+				if cn == "math.Round" && nonNeg {
+					r.OK(round.Label(), "math.Round of a non-negative number", c.Pos(), "half away from zero is half up there")
+				} else {
+					r.Bad(round.Label(), "rounds with "+cn, c.Pos(), fmt.Sprintf("filter round calls %s on a number whose sign is not known: it rounds -2.5 to -3 (away from zero), to -2 only by accident of parity (to even) or cuts the fraction (Trunc); the documented rule is half up, floor(x + 0.5)", cn))
+				}
+			}
+		})
+	}
+	r.Floor("rounding calls", 1)
+}
+
+func isFloatType(t types.Type) bool {
+	b, ok := t.Underlying().(*types.Basic)
+	return ok && b.Info()&types.IsFloat != 0
+}
+
+func constIsZero(c *ssa.Const) bool {
+	if c.Value == nil {
+		return false
+	}
+	if f, ok := constFloat(c); ok {
+		return f == 0
+	}
+	return false
+}
+
+func constFloat(c *ssa.Const) (float64, bool) {
+	if c.Value == nil {
+		return 0, false
+	}
+	switch c.Value.Kind() {
+	case constant.Int, constant.Float:
+		f, _ := constant.Float64Val(constant.ToFloat(c.Value))
+		return f, true
+	}
+	return 0, false
+}
+
+func runF14(p *an.Prog, r *an.Result) {
+	for _, fn := range p.Funcs {
+		if isMainPkg(fn) || fn.Blocks == nil || p.IsGenerated(an.FuncPos(fn)) {
+			continue
+		}
+		name := an.FuncName(fn)
+		an.EachInstr(fn, func(in ssa.Instruction) {
+			c, ok := in.(*ssa.Call)
+			if !ok {
+				return
+			}
+			cn := an.CallName(&c.Call)
+			switch cn {
+			case "strconv.FormatFloat", "strconv.AppendFloat":
+				off := 0
+				if cn == "strconv.AppendFloat" {
+					off = 1
+				}
+				r.Counts["strconv formatter calls"]++
+				f, okF := an.ConstInt(c.Call.Args[off+1])
+				pr, okP := an.ConstInt(c.Call.Args[off+2])
+				if okF && okP && f == 'g' && pr == -1 {
+					r.OK(name, cn+" in fmt's own format", c.Pos(), "'g' with the shortest precision is what fmt.Sprint prints")
+				} else {
+					r.Bad(name, cn+" in a format fmt.Sprint does not use", c.Pos(), fmt.Sprintf("%s formats a float with %s in a format other than ('g', -1): the same number then reads differently as a filter argument or receiver (0.00001) than printed ({{ x }} gives 1e-05)", name, cn))
+				}
+			case "strconv.FormatInt", "strconv.FormatUint", "strconv.AppendInt", "strconv.AppendUint":
+				r.Counts["strconv formatter calls"]++
+				base, okB := an.ConstInt(c.Call.Args[len(c.Call.Args)-1])
+				if okB && base == 10 {
+					r.OK(name, cn+" in base 10", c.Pos(), "what fmt.Sprint prints")
+				} else {
+					r.Bad(name, cn+" in another base", c.Pos(), "an integer is printed in base 10")
+				}
+			}
+		})
+	}
+}
+
+func runX19(p *an.Prog, r *an.Result) {
+	pkg := p.Package("values")
+	if pkg == nil {
+		r.Bad("-", "package values not found", token.NoPos, "anchor not resolved")
+		return
+	}
+	for _, fn := range p.Funcs {
+		if fn.Pkg != pkg || fn.Name() != "IndexValue" || fn.Signature.Recv() == nil {
+			continue
+		}
+		for _, f := range unitWithHelpers(p, fn) {
+			an.EachInstr(f, func(in ssa.Instruction) {
+				cv, ok := in.(*ssa.Convert)
+				if !ok || !isFloatType(cv.X.Type()) {
+					return
+				}
+				if b, ok := cv.Type().Underlying().(*types.Basic); !ok || b.Info()&types.IsInteger == 0 {
+					return
+				}
+				r.Counts["float index truncations"]++
+				// the operand is the index itself: no arithmetic between the value and the truncation
+				arith := false
+				seen := map[ssa.Value]bool{}
+				var visit func(v ssa.Value, d int)
+				visit = func(v ssa.Value, d int) {
+					if v == nil || seen[v] || d > 8 {
+						return
+					}
+					seen[v] = true
+					switch x := v.(type) {
+					case *ssa.BinOp:
+						arith = true
+					case *ssa.Phi:
+						for _, e := range x.Edges {
+							visit(e, d+1)
+						}
+					case *ssa.Convert:
+						visit(x.X, d+1)
+					case *ssa.ChangeType:
+						visit(x.X, d+1)
+					}
+				}
+				visit(cv.X, 0)
+				if arith {
+					r.Bad(an.FuncName(f), "a float index is truncated after arithmetic", cv.Pos(), "the index is wrapped (index + length) or otherwise computed as a float and truncated afterwards: a[-1.5] then reads a[len-2] instead of a[-1]; Liquid truncates the index toward zero first")
+				} else {
+					r.OK(an.FuncName(f), "a float index is truncated at once", cv.Pos(), "int(index) of the index value itself")
+				}
+			})
+		}
+	}
+	r.Floor("float index truncations", 1)
 }
